@@ -69,8 +69,12 @@ def gen_plan(run_seed, tier, index):
         name = r.choice(list(OPEN_TRAD)[:6] * 4 + ['OpenQueryInstances'])
         a = {}
         if name == 'OpenQueryInstances':
-            a['FilterQueryLanguage'] = 'DMTF:CQL'
-            a['FilterQuery'] = 'select * from C0'
+            a['FilterQueryLanguage'] = 'DMTF:FQL'
+            a['FilterQuery'] = 'select * from %s' % model['classes'][0][
+                'name']
+            ns = g.ns(False)
+            if ns is not None:
+                a['namespace'] = ns
         elif 'Enumerate' in name:
             a['ClassName'] = g.cls(assoc=None, allow_bad=False)
             ns = g.ns(False)
@@ -108,7 +112,8 @@ def gen_plan(run_seed, tier, index):
             steps.append(['pull', sid, r.choice([0, 1, 1, 1, 2, 3, 100,
                                                  None])])
         elif k < 0.63:
-            steps.append(['wrongpull', sid, r.choice([0, 1, 5])])
+            steps.append(['wrongpull', sid, r.choice([0, 1, 5]),
+                          r.choice([0, 0, 1, 1, 5, 100])])
         elif k < 0.73:
             steps.append(['close', sid])
             state[sid] = 'done'
@@ -131,8 +136,15 @@ def gen_plan(run_seed, tier, index):
         steps.append(['toggle_pull', False])
         steps.append(r.choice([['close', sid], ['drain', sid, r.choice(
             [1, 2, 100])]]))
+    # the server's default for an omitted MaxObjectCount is a tuning knob
+    # (100 as shipped): small values make "more objects than the default"
+    # reachable with small repositories
     return {'check': ID, 'model_seed': mseed, 'steps': steps,
-            'ids_seed': r.getrandbits(32)}
+            'ids_seed': r.getrandbits(32),
+            'default_max': r.choice([100, 100, 1, 2, 3, 5]),
+            # a stub query engine behind ExecQuery/OpenQueryInstances (the
+            # mock's own one always answers CIM_ERR_NOT_SUPPORTED)
+            'query_engine': r.random() < 0.6}
 
 
 def _mutation(r, g):
@@ -187,6 +199,10 @@ def execute(plan):
                          max_inst=16)
     saved_uuid4 = uuid.uuid4
     uuid.uuid4 = _Ids(plan['ids_seed'])
+    import pywbem_mock._mainprovider as _mp
+    saved_defmax = _mp.DEFAULT_MAX_OBJECT_COUNT
+    DEFMAX = plan.get('default_max', 100)
+    _mp.DEFAULT_MAX_OBJECT_COUNT = DEFMAX
     V = []
     probes = {}
     trace = []
@@ -200,6 +216,9 @@ def execute(plan):
     try:
         conn = mg.fresh_conn(model)
         other = mg.fresh_conn(model)        # an unrelated server
+        if plan.get('query_engine'):
+            mg.enable_query(conn)
+            mg.enable_query(other)
         sess = {}        # sid -> dict(remaining, pull, ctx, state, ns...)
         old_ctx = {}     # sid -> last context of a finished session
         removed_ns = set()
@@ -258,6 +277,8 @@ def execute(plan):
                 if trad == 'ExecQuery':
                     ta = {'QueryLanguage': a['FilterQueryLanguage'],
                           'Query': a['FilterQuery']}
+                    if 'namespace' in a:
+                        ta['namespace'] = a['namespace']
                 if 'InstanceName' in ta:
                     ta['ObjectName'] = ta.pop('InstanceName')
                 exp = opgen.call(conn, {'op': trad, 'a': ta}, [])
@@ -298,7 +319,8 @@ def execute(plan):
                      'responses': 0, 'name': name, 'args': oa,
                      'ns': (res.context[1] if res.context else None)}
                 sess[sid] = s
-                deliver(sid, s, objs, name, moc if moc is not None else 100,
+                deliver(sid, s, objs, name,
+                        moc if moc is not None else DEFMAX,
                         res.eos, i)
                 if res.eos:
                     if res.context is not None:
@@ -367,7 +389,8 @@ def execute(plan):
                     wrong = [p for p in PULLS if p != s['pull']]
                     wp = wrong[st[2] % len(wrong)]
                     before = list(s['remaining'])
-                    got = opgen.call(conn, {'op': wp, 'p': [ctx, 1]}, [])
+                    got = opgen.call(conn, {'op': wp, 'p': [
+                        ctx, st[3] if len(st) > 3 else 1]}, [])
                     trace.append(('wrongpull', got[0]))
                     bump('wrong_kind_pull')
                     if got[0] != 'exc' or not isinstance(got[1], CIMError):
@@ -512,6 +535,7 @@ def execute(plan):
                 pass   # already reported as eos-while-objects-remain
     finally:
         uuid.uuid4 = saved_uuid4
+        _mp.DEFAULT_MAX_OBJECT_COUNT = saved_defmax
     seen = set()
     out = []
     for v in V:
